@@ -10,7 +10,7 @@
 (* and validation continues, so one bad line does not hide the rest.       *)
 (* Acceptance: POSTCONDITION Accepted (all lines consumed).                *)
 (***************************************************************************)
-EXTENDS BoardImpl, Json, IOUtils, TLC
+EXTENDS Chain, Json, IOUtils
 
 Recs == ndJsonDeserialize(IOEnv.TRACE)
 Prop == IOEnv.PROP
@@ -20,7 +20,9 @@ VARIABLES l,        \* index of the next line to consume
           stk,      \* its undo stack: <<[m, u, before (model board), obs (logged state before the make)]>>
           obs,      \* the last logged state [pos, der] of the session
           seen,     \* history variable of the session: Key(position) -> logged hash
-          dead      \* TRUE after the session diverged from the model (skipped until the next reset)
+          dead,     \* TRUE after the session diverged from the model (skipped until the next reset)
+          ch,       \* abstract move chain (Chain.tla) of the chain session, or <<>>
+          pobs      \* the previous logged observation of the chain
 
 \* JSON conversions (JSON arrays are 1-based sequences)
 PosOfJson(j) == [cells |-> [s \in Sq |-> j.cells[s + 1]], side |-> j.side,
@@ -179,13 +181,234 @@ HashPairChecks(e) ==
 
 IsSessionEvent(e) == e.ev \in {"reset", "make", "unmake"}
 
+(***************************************************************************)
+(* Move-chain sessions (C02, C13, C14, C17; C05 on every observed board).  *)
+(***************************************************************************)
+IsChainEvent(e) == e.ev \in {"c_new", "c_push", "c_pop", "c_set_outcome", "c_clear_outcome", "c_reset_outcome",
+                              "c_calc", "c_set_auto", "c_walk", "c_text", "c_eq"}
+MoveSeqOfJson(q) == [i \in 1..Len(q) |-> MoveOfJson(q[i])]
+OutcomeOfJson(o) == o       \* JSON arrays are tuples already: <<"none">>, <<"win", 0, "checkmate">>, <<"draw", r>>
+
+\* what a move-like value denotes among the legal moves of `pos`; "unknown" for kinds the spec
+\* cannot decode yet (then only soundness is required: an accepted move must be legal)
+LikeKnown(like) == like.t \in {"move", "uci", "ucimove"}
+IsSanLike(like) == like.t \in {"san", "sanmove"}
+Denotes(LS, like) ==
+  CASE like.t = "move" -> {MoveOfJson(like.m)} \cap LS
+    [] like.t \in {"uci", "ucimove"} -> UciDenotes(LS, like.text)
+    [] OTHER -> {}
+\* SAN text pushed onto a chain: sound (an accepted move is the unique legal move agreeing with what the
+\* text says) and complete on standard texts (the SAN of a legal move is accepted as that move)
+SanLikeOK(pos, LS, like, res, m) ==
+  LET d == SanDescribe(like.text)  RS == SanResolveIn(LS, d)  ex == SanExactIn(pos, LS, like.text) IN
+  /\ res = "ok" => (m \in LS /\ (d.form # "none" => (m \in RS /\ Cardinality(RS) = 1)))
+  /\ ex # {} => (res = "ok" /\ m \in ex)
+
+\* the logged observation agrees with the abstract chain
+ObsChecks(c, o) ==
+  {<<"obs_len", o.len = ChLen(c) /\ o.empty = (ChLen(c) = 0)>>,
+   <<"obs_moves", MoveSeqOfJson(o.moves) = c.moves /\ MoveSeqOfJson(o.moves_by_get) = c.moves>>,
+   <<"obs_position_is_replay", PosOfJson(o.last.pos) = Cur(c)>>,
+   <<"obs_start", PosOfJson(o.start) = c.start>>,
+   <<"obs_outcome", o.outcome = c.outcome /\ o.finished = (c.outcome # NoOutcome)>>}
+  \cup (IF Prop = "C02"
+        THEN {<<"position_valid", IsValid(PosOfJson(o.last.pos))>>,
+              <<"revalidation_identical", o.revalid>>,
+              <<"mover_not_in_check", ~o.mover_in_check>>}
+        ELSE {})
+  \cup (IF Prop = "C05"
+        THEN {<<"hash_eq_scratch", o.last.der.hash = o.last.der.scratch>>,
+              <<"sets_eq_scratch", SetsMatch(o.last.der, Scratch(PosOfJson(o.last.pos)))>>}
+        ELSE {})
+
+\* the walker steps of one c_walk event, simulated on the abstract walker
+RECURSIVE WalkChecks(_, _, _, _)
+WalkChecks(c, steps, k, i) ==
+  IF k > Len(steps) THEN {}
+  ELSE LET st == steps[k]
+           r == CASE st.op = "next" -> WNext(c, i)
+                  [] st.op = "prev" -> WPrev(c, i)
+                  [] st.op = "start" -> [some |-> FALSE, i |-> 0]
+                  [] OTHER -> [some |-> FALSE, i |-> ChLen(c)]
+           ok == /\ st.some = r.some
+                 /\ st.wpos = r.i /\ st.wlen = ChLen(c)
+                 /\ r.some => /\ PosOfJson(st.state.pos) = r.pos
+                              /\ MoveOfJson(st.m) = r.m
+                              /\ st.state.der.hash = st.state.der.scratch
+                              /\ SetsMatch(st.state.der, Scratch(r.pos))
+       IN {<<"walk_step_" \o ToString(k) \o "_" \o st.op, ok>>} \cup WalkChecks(c, steps, k + 1, r.i)
+
+StyledChecks(c, variants) ==
+  {<<"styled_" \o v.nums \o "_" \o v.style \o (IF v.status THEN "_status" ELSE ""),
+     ~("panic" \in DOMAIN v)
+     /\ v.text = StyledText(c, v.nums, IF v.nums = "custom" THEN v.custom ELSE 0, v.status,
+                             LAMBDA i : CASE v.style = "uci" -> UciOf(c.moves[i])
+                                          [] v.style = "san" -> SanOf(c.hist[i], c.moves[i])
+                                          [] OTHER -> SanUtf8Of(c.hist[i], c.moves[i]))>> :
+     v \in {variants[i] : i \in 1..Len(variants)}}
+
+ChainChecks(e) ==
+  IF e.ev = "c_new" THEN
+       {<<"input_valid", IsValid(PosOfJson(e.pos))>>} \cup ObsChecks(NewChain(PosOfJson(e.pos)), e.obs)
+  ELSE
+  LET cur == Cur(ch) IN
+  CASE e.ev = "c_push" ->
+         LET LS == Legal(cur)
+             d == Denotes(LS, e.like)
+             known == LikeKnown(e.like)
+             m == IF e.res = "ok" THEN MoveOfJson(e.m) ELSE NullMove
+         IN {<<"no_panic", e.res # "panic">>,
+             <<"push_precondition", ch.outcome = NoOutcome>>,
+             <<"accepted_iff_legal", known => ((e.res = "ok") <=> (Cardinality(d) = 1))>>,
+             <<"accepted_move_is_the_denoted_legal_move",
+                 e.res = "ok" => (m \in LS /\ (known => m \in d))>>,
+             <<"san_text_sound_and_complete", IsSanLike(e.like) => SanLikeOK(cur, LS, e.like, e.res, m)>>,
+             <<"refused_push_changes_nothing", e.res # "ok" => e.obs = pobs>>}
+            \cup (IF e.res = "ok" /\ m \in LS THEN ObsChecks(ChPush(ch, m), e.obs) ELSE {})
+    [] e.ev = "c_pop" ->
+         {<<"pop_result", IF ChLen(ch) = 0 THEN e.res = "none"
+                          ELSE e.res = "some" /\ MoveOfJson(e.m) = ch.moves[ChLen(ch)]>>}
+         \cup ObsChecks(ChPop(ch), e.obs)
+    [] e.ev = "c_set_outcome" -> ObsChecks([ch EXCEPT !.outcome = e.o], e.obs)
+    [] e.ev = "c_clear_outcome" -> ObsChecks([ch EXCEPT !.outcome = NoOutcome], e.obs)
+    [] e.ev = "c_reset_outcome" -> ObsChecks([ch EXCEPT !.outcome = e.o], e.obs)
+    [] e.ev = "c_calc" ->
+         {<<"calc_outcome_allowed", e.res \in ChOutcomeAllowed(ch)>>,
+          <<"repeat_count", \A i \in 1..Len(e.rep) : e.rep[i] = RepCount(ch)>>,
+          <<"board_outcome_allowed", e.board_outcome \in OutcomeAllowed(cur, 1)>>,
+          <<"calc_changes_nothing", e.obs = pobs>>}
+    [] e.ev = "c_set_auto" ->
+         {<<"auto_outcome", e.res \in AutoAllowed(ch, e.filter)>>,
+          <<"repeat_count", \A i \in 1..Len(e.rep) : e.rep[i] = RepCount(ch)>>}
+         \cup ObsChecks([ch EXCEPT !.outcome = e.res], e.obs)
+    [] e.ev = "c_walk" ->
+         WalkChecks(ch, e.results, 1, 0)
+         \cup {<<"walk_leaves_chain_untouched", e.chain_untouched /\ e.obs = pobs>>}
+    [] e.ev = "c_text" ->
+         {<<"uci_list_text", e.uci = UciListText(ch)>>,
+          <<"uci_list_rebuilds_equal_chain",
+              e.uci_rebuilt.ok /\ e.uci_rebuilt.eq /\ PosOfJson(e.uci_rebuilt.last) = cur
+              /\ MoveSeqOfJson(e.uci_rebuilt.moves) = ch.moves>>,
+          <<"text_changes_nothing", e.obs = pobs>>}
+         \cup StyledChecks(ch, e.styled)
+    [] e.ev = "c_eq" ->
+         {<<"eq_" \o v.kind,
+            LET same == /\ PosOfJson(v.start) = ch.start
+                        /\ MoveSeqOfJson(v.moves) = ch.moves
+                        /\ v.outcome = ch.outcome
+            IN v.eq = same /\ v.eq_rev = same>> : v \in {e.variants[i] : i \in 1..Len(e.variants)}}
+         \cup {<<"eq_changes_nothing", e.obs = pobs>>}
+
+\* the abstract chain follows the implementation where that is meaningful; otherwise the session is dead
+ChainNext(e) ==
+  CASE e.ev = "c_new" -> NewChain(PosOfJson(e.pos))
+    [] e.ev = "c_push" -> IF e.res = "ok" THEN ChPush(ch, MoveOfJson(e.m)) ELSE ch
+    [] e.ev = "c_pop" -> ChPop(ch)
+    [] e.ev \in {"c_set_outcome", "c_reset_outcome"} -> [ch EXCEPT !.outcome = e.o]
+    [] e.ev = "c_clear_outcome" -> [ch EXCEPT !.outcome = NoOutcome]
+    [] e.ev = "c_set_auto" -> [ch EXCEPT !.outcome = e.res]
+    [] OTHER -> ch
+ChainDiverged(e, failed) ==
+     (e.ev = "c_push" /\ e.res = "ok" /\ MoveOfJson(e.m) \notin Legal(Cur(ch)))
+  \/ "obs_position_is_replay" \in failed \/ "obs_moves" \in failed \/ "obs_len" \in failed
+
+(***************************************************************************)
+(* Text formats: FEN (C08), SAN (C09), UCI (C10), parser totality (C12).   *)
+(***************************************************************************)
+FenChecks(e) ==
+  LET pos == PosOfJson(e.pos)  rd == FenRead(e.text) IN
+  {<<"text_is_canonical_fen", e.text = FenWrite(pos)>>,
+   <<"independent_reader_same_position", rd.ok /\ rd.pos = pos>>,
+   <<"library_reparse_same_position", e.reparsed.ok /\ PosOfJson(e.reparsed.pos) = pos>>,
+   <<"raw_reparse_same_position", e.reparsed_raw.ok /\ PosOfJson(e.reparsed_raw.pos) = pos>>,
+   <<"input_in_scope", IF e.kind = "board" THEN IsValid(pos)
+                       ELSE (pos.ep = -1 \/ RankOf(pos.ep) = EpSrcRank(pos.side))>>}
+
+FenParseChecks(e) ==
+  LET rd == FenRead(e.text) IN
+  {<<"no_panic", ~("panic" \in DOMAIN e.res)>>,
+   <<"parse_format_parse_stable",
+       e.res.ok => (e.res.text2 = FenWrite(PosOfJson(e.res.pos)) /\ e.res.pos2.ok /\ e.res.pos2.pos = e.res.pos)>>,
+   <<"canonical_text_accepted_as_read", rd.ok => (e.res.ok /\ PosOfJson(e.res.pos) = rd.pos)>>}
+
+SanChecks(e) ==
+  LET pos == PosOfJson(e.pos)
+      LS == Legal(pos)
+      MV == {e.moves[i] : i \in 1..Len(e.moves)}
+      TX == {e.texts[i] : i \in 1..Len(e.texts)}
+      stdTexts == {x.san : x \in {x \in MV : x.ok}}
+      stdMove(t) == {MoveOfJson(x.m) : x \in {x \in MV : x.ok /\ x.san = t}}
+  IN
+  {<<"input_valid", IsValid(pos)>>,
+   <<"every_legal_move_has_san", {MoveOfJson(x.m) : x \in MV} = LS /\ \A x \in MV : x.ok>>,
+   <<"san_is_standard", \A x \in MV : x.ok => x.san = SanOfIn(pos, LS, MoveOfJson(x.m))>>,
+   <<"utf8_is_standard", \A x \in MV : x.ok => x.utf8 = SanUtf8OfIn(pos, LS, MoveOfJson(x.m)) /\ x.styled_agree>>,
+   <<"distinct_moves_distinct_texts", Cardinality(stdTexts) = Cardinality({x \in MV : x.ok})>>,
+   <<"san_round_trip", \A x \in MV : x.ok => (x.back.ok /\ MoveOfJson(x.back.m) = MoveOfJson(x.m))>>,
+   <<"illegal_moves_have_no_san", e.illegal_with_san = <<>>>>,
+   <<"parse_no_panic", \A x \in TX : ~("panic" \in DOMAIN x.res)>>,
+   <<"parse_returns_only_the_legal_move_described",
+       \A x \in TX : x.res.ok =>
+          LET m == MoveOfJson(x.res.m)  d == SanDescribe(x.text)  RS == SanResolveIn(LS, d) IN
+          m \in LS /\ (d.form # "none" => (m \in RS /\ Cardinality(RS) = 1))>>,
+   <<"standard_text_accepted", \A x \in TX : x.text \in stdTexts => (x.res.ok /\ MoveOfJson(x.res.m) \in stdMove(x.text))>>}
+
+UciChecks(e) ==
+  LET pos == PosOfJson(e.pos)
+      PL == PseudoLegal(pos)
+      LS == Legal(pos)
+      pairs(q) == {<<<<q[i][1][1], q[i][1][2], q[i][1][3]>>, MoveOfJson(q[i][2])>> : i \in 1..Len(q)}
+      TS == {e.tostring[i] : i \in 1..Len(e.tostring)}
+  IN
+  {<<"input_valid", IsValid(pos)>>,
+   <<"no_panic", e.panics = <<>>>>,
+   <<"semilegal_reader_accepts_exactly_the_pseudo_legal_triples", pairs(e.semi) = {<<Triple(m), m>> : m \in PL}>>,
+   <<"legal_reader_accepts_exactly_the_legal_triples", pairs(e.legal) = {<<Triple(m), m>> : m \in LS}>>,
+   <<"make_accepts_exactly_the_legal_triples",
+       {<<e.make_ok[i][1][1], e.make_ok[i][1][2], e.make_ok[i][1][3]>> : i \in 1..Len(e.make_ok)} = {Triple(m) : m \in LS}
+       /\ \A i \in 1..Len(e.make_ok) : e.make_ok[i][2] /\ e.make_ok[i][3]>>,
+   <<"basic_reader_yields_well_formed_moves_with_that_triple",
+       \A p \in pairs(e.basic) : WellFormed(p[2]) /\ Triple(p[2]) = p[1] /\ p[2][2] = pos.cells[p[2][3]]>>,
+   <<"semilegal_subset_of_basic", pairs(e.semi) \subseteq pairs(e.basic)>>,
+   <<"null_move_never_accepted",
+       e.null.from_uci_is_null /\ ~e.null.semi /\ ~e.null.legal /\ ~e.null.make_str /\ ~e.null.make_parsed
+       /\ ~e.null.make_move /\ e.null.null_text = Txt("0000")>>,
+   <<"to_string_is_uci_and_reads_back",
+       {MoveOfJson(x.m) : x \in TS} = PL
+       /\ \A x \in TS : x.text = UciOf(MoveOfJson(x.m)) /\ x.same /\ x.back = x.m>>}
+
+ParseChecks(e) ==
+  LET t == e.text IN
+  {<<"no_panic", e.res # "panic">>,
+   <<"value_formats_back_to_itself", e.res = "ok" => e.rt>>,
+   <<"accept_language",
+       CASE e.what = "coord" -> ((e.res = "ok") <=> (Len(t) = 2 /\ IsFileCh(t[1]) /\ IsRankCh(t[2])))
+                                /\ (e.res = "ok" => e.val = MkSq(FileOfCh(t[1]), RankOfCh(t[2])))
+         [] e.what = "color" -> ((e.res = "ok") <=> (t = <<119>> \/ t = <<98>>))
+                                /\ (e.res = "ok" => e.val = (IF t = <<119>> THEN 0 ELSE 1))
+         [] e.what = "cell" -> ((e.res = "ok") <=> (Len(t) = 1 /\ (t[1] = 46 \/ CellOfCh(t[1]) # -1)))
+                               /\ (e.res = "ok" => e.val = (IF t[1] = 46 THEN 0 ELSE CellOfCh(t[1])))
+         [] e.what = "rights" -> ((e.res = "ok") <=> (RightsOfText(t) # -1))
+                                 /\ (e.res = "ok" => e.val = RightsOfText(t))
+         [] e.what = "uci" -> ((e.res = "ok") <=> UciParse(t).ok)
+         [] e.what = "rawfen" -> (FenRead(t).ok => e.res = "ok")
+         [] e.what = "from_uci" ->
+              LET u == UciParse(t) IN (~u.ok => e.res # "ok")
+         [] OTHER -> TRUE>>}
+
 EventChecks(e) ==
   CASE e.ev = "q" -> QChecks(e)
+    [] e.ev = "fen" -> FenChecks(e)
+    [] e.ev = "fenparse" -> FenParseChecks(e)
+    [] e.ev = "san" -> SanChecks(e)
+    [] e.ev = "uci" -> UciChecks(e)
+    [] e.ev = "parse" -> ParseChecks(e)
     [] IsSessionEvent(e) -> SessionChecks(e)
     [] e.ev = "hashpair" -> HashPairChecks(e)
     [] OTHER -> {<<"unknown_event", FALSE>>}
 
 Init == l = 1 /\ live = <<>> /\ stk = <<>> /\ obs = <<>> /\ seen = <<>> /\ dead = FALSE
+        /\ ch = <<>> /\ pobs = <<>>
 
 Report(failed) ==
   IF failed = {} THEN TRUE
@@ -194,40 +417,55 @@ Report(failed) ==
 \* a pure event: no model state changes
 StepPure(e) ==
   /\ Report(FailedOf(EventChecks(e)))
-  /\ UNCHANGED <<live, stk, obs, seen, dead>>
+  /\ UNCHANGED <<live, stk, obs, seen, dead, ch, pobs>>
+
+StepChain(e) ==
+  /\ UNCHANGED <<live, stk, obs, seen>>
+  /\ IF e.ev = "c_new" THEN
+          /\ Report(FailedOf(ChainChecks(e)))
+          /\ ch' = NewChain(PosOfJson(e.pos)) /\ pobs' = e.obs /\ dead' = FALSE
+     ELSE IF dead THEN UNCHANGED <<ch, pobs, dead>>
+     ELSE LET failed == FailedOf(ChainChecks(e)) IN
+          /\ Report(failed)
+          /\ pobs' = e.obs
+          /\ IF ChainDiverged(e, failed) THEN dead' = TRUE /\ ch' = ch
+             ELSE dead' = FALSE /\ ch' = ChainNext(e)
 
 StepSession(e) ==
   LET pos == PosOfJson(e.pos)
       ob == [pos |-> e.pos, der |-> e.der]
       addSeen == IF Key(pos) \in DOMAIN seen THEN seen ELSE seen @@ (Key(pos) :> e.der.hash)
-  IN
-  IF e.ev = "reset" THEN
-       /\ Report(FailedOf(SessionChecks(e)))
-       /\ live' = Scratch(pos) /\ stk' = <<>> /\ obs' = ob
-       /\ seen' = (Key(pos) :> e.der.hash) /\ dead' = FALSE
-  ELSE IF dead \/ (e.ev = "unmake" /\ stk = <<>>) THEN
-       \* diverged earlier in this session (already reported): skip until the next reset
-       /\ UNCHANGED <<live, stk, obs, seen, dead>>
-  ELSE LET failed == FailedOf(SessionChecks(e)) IN
-       /\ Report(failed)
-       /\ dead' = ("pos_eq_model" \in failed \/ "unmake_move_matches" \in failed)
-       /\ obs' = ob
-       /\ seen' = addSeen
-       /\ IF e.ev = "make"
-          THEN LET m == MoveOfJson(e.m)  mk == DoMake(live, m) IN
-               /\ live' = mk.board
-               /\ stk' = Append(stk, [m |-> m, u |-> mk.undo, before |-> live, obs |-> obs])
-          ELSE LET t == stk[Len(stk)] IN
-               /\ live' = DoUnmake(live, t.m, t.u)
-               /\ stk' = SubSeq(stk, 1, Len(stk) - 1)
+      body ==
+        IF e.ev = "reset" THEN
+             /\ Report(FailedOf(SessionChecks(e)))
+             /\ live' = Scratch(pos) /\ stk' = <<>> /\ obs' = ob
+             /\ seen' = (Key(pos) :> e.der.hash) /\ dead' = FALSE
+        ELSE IF dead \/ (e.ev = "unmake" /\ stk = <<>>) THEN
+             \* diverged earlier in this session (already reported): skip until the next reset
+             UNCHANGED <<live, stk, obs, seen, dead>>
+        ELSE LET failed == FailedOf(SessionChecks(e)) IN
+             /\ Report(failed)
+             /\ dead' = ("pos_eq_model" \in failed \/ "unmake_move_matches" \in failed)
+             /\ obs' = ob
+             /\ seen' = addSeen
+             /\ IF e.ev = "make"
+                THEN LET m == MoveOfJson(e.m)  mk == DoMake(live, m) IN
+                     /\ live' = mk.board
+                     /\ stk' = Append(stk, [m |-> m, u |-> mk.undo, before |-> live, obs |-> obs])
+                ELSE LET t == stk[Len(stk)] IN
+                     /\ live' = DoUnmake(live, t.m, t.u)
+                     /\ stk' = SubSeq(stk, 1, Len(stk) - 1)
+  IN body /\ UNCHANGED <<ch, pobs>>
 
 Next ==
   /\ l <= Len(Recs)
   /\ l' = l + 1
   /\ LET e == Recs[l] IN
-       IF IsSessionEvent(e) THEN StepSession(e) ELSE StepPure(e)
+       IF IsSessionEvent(e) THEN StepSession(e)
+       ELSE IF IsChainEvent(e) THEN StepChain(e)
+       ELSE StepPure(e)
 
-vars == <<l, live, stk, obs, seen, dead>>
+vars == <<l, live, stk, obs, seen, dead, ch, pobs>>
 Spec == Init /\ [][Next]_vars
 
 Accepted ==
